@@ -45,7 +45,8 @@ def run(ctx) -> None:
             continue
         cons = [e.obj for e in s.path.events if e.kind == "construct" and e.cls == "CompleteConsumer"]
         obs = cons[-1].fields.get("instruction_observers") if cons else None
-        first = obs.items[0] if isinstance(obs, ListV) and obs.items else None
+        from ..matchflow import wrapped_observer
+        first = wrapped_observer(obs.items[0]) if isinstance(obs, ListV) and obs.items else None
         ctx.check(isinstance(first, Obj) and first.cls.name == "RemoveEmptyInstructions", "C08.K2.empty-pseudo-instruction-removed",
                   f"perform_matching[{s.cfg['file_type']},cfg={sorted(s.cfg['config'])}]",
                   f"first observer is {first.cls.name if isinstance(first, Obj) else first!r}",
@@ -53,6 +54,8 @@ def run(ctx) -> None:
     shapes.parser_total_rule(ctx, I, "C08.K5.parser-total-on-printed-operand-forms")
     from ._matchrules import observer_chain_rules
     observer_chain_rules(ctx, "C08.K6.empty-pseudo-instruction-never-reaches-the-stream", "C08.K6.every-other-instruction-reaches-the-stream")
+    from ._matchrules import wired_chain_rules
+    wired_chain_rules(ctx, "C08.K6.empty-pseudo-instruction-never-reaches-the-stream", "C08.K6.every-other-instruction-reaches-the-stream")
     # Q: the regex is searched in the stream of this operation's own listing (nothing carried over from an earlier operation)
     from ._matchrules import stream_per_run
     stream_per_run(ctx, "C08.Q.searched-stream-is-this-operations")
